@@ -22,6 +22,9 @@ def cases(tier, seed):
                     continue
                 for init in ("k-means++", "random"):
                     yield dict(kind="L1", points=pts, k=k, init=init, seed=seed + len(comb) + k, dtype="float64" if (k + n) % 2 else "float32", weights=(n % 2 == 0))
+                    if (k + n) % 2 and init == "random":
+                        # the same data in units of 1e-9 (every absolute tolerance of the code meets data of that magnitude)
+                        yield dict(kind="L1", points=pts, k=k, init=init, seed=seed + len(comb) + k, dtype="float64", weights=False, scale=1e-9)
     for s in range(3 if tier == "quick" else 8):
         yield dict(kind="L2", seed=seed + s, k=3)
 
@@ -39,7 +42,8 @@ def check(c):
                 abs(a.inertia_ - b.inertia_) <= 1e-9 and numpy.array_equal(a.predict(Q), b.predict(Q)) and numpy.array_equal(a.transform(Q), b.transform(Q))):
             return dict(**{"class": "L2-differs-from-KMeans"}, what="norm='L2' differs from scikit-learn's KMeans")
         return None
-    X = numpy.array(c["points"], dtype=c["dtype"])
+    sc = c.get("scale", 1.0)
+    X = numpy.array(c["points"], dtype=c["dtype"]) * (sc if sc != 1.0 else 1)
     X0 = X.copy()
     w = numpy.full(len(X), 2.0) if c["weights"] else None
     try:
@@ -47,21 +51,21 @@ def check(c):
     except Exception as e:
         return dict(**{"class": "L1-fit-fails"}, what="fit fails on finite data with >= k distinct points: %s: %s" % (type(e).__name__, str(e)[:120]))
     C = numpy.asarray(m.cluster_centers_, dtype=float)
-    if not numpy.all(numpy.isfinite(C)) or numpy.any(C < X.min(axis=0) - 1e-9) or numpy.any(C > X.max(axis=0) + 1e-9):
+    if not numpy.all(numpy.isfinite(C)) or numpy.any(C < X.min(axis=0) - 1e-9 * sc) or numpy.any(C > X.max(axis=0) + 1e-9 * sc):
         return dict(**{"class": "L1-centre-out-of-range"}, what="centres %r outside the data range" % C.tolist())
     D = numpy.abs(X[:, None, :].astype(float) - C[None, :, :]).sum(axis=2)
     lab = numpy.asarray(m.labels_)
-    if not numpy.allclose(D[numpy.arange(len(X)), lab], D.min(axis=1), atol=1e-9):
+    if not numpy.allclose(D[numpy.arange(len(X)), lab], D.min(axis=1), rtol=0, atol=1e-9 * sc):
         return dict(**{"class": "L1-label-not-nearest"}, what="a training point does not carry the label of a Manhattan-nearest centre")
     ww = numpy.ones(len(X)) if w is None else w
-    if abs(m.inertia_ - float((D.min(axis=1) * ww).sum())) > 1e-6 * max(1.0, abs(m.inertia_)):
+    if abs(m.inertia_ - float((D.min(axis=1) * ww).sum())) > 1e-6 * max(sc, abs(m.inertia_)):
         return dict(**{"class": "L1-inertia"}, what="inertia_ %r is not the (weighted) sum of Manhattan distances %r" % (m.inertia_, float((D.min(axis=1) * ww).sum())))
-    Q = numpy.array([[10.5, 11.5], [12.0, 10.0], [9.0, 13.0]], dtype=c["dtype"])
+    Q = numpy.array([[10.5, 11.5], [12.0, 10.0], [9.0, 13.0]], dtype=c["dtype"]) * (sc if sc != 1.0 else 1)
     DQ = numpy.abs(Q[:, None, :].astype(float) - C[None, :, :]).sum(axis=2)
     p = m.predict(Q)
-    if not numpy.allclose(DQ[numpy.arange(len(Q)), p], DQ.min(axis=1), atol=1e-9):
+    if not numpy.allclose(DQ[numpy.arange(len(Q)), p], DQ.min(axis=1), rtol=0, atol=1e-9 * sc):
         return dict(**{"class": "L1-predict"}, what="predict does not return a Manhattan-nearest centre")
-    if not numpy.allclose(m.transform(Q), DQ, atol=1e-5 if c["dtype"] == "float32" else 1e-9):
+    if not numpy.allclose(m.transform(Q), DQ, rtol=0, atol=(1e-5 if c["dtype"] == "float32" else 1e-9) * sc):
         return dict(**{"class": "L1-transform"}, what="transform is not the Manhattan distance to every centre")
     if not numpy.array_equal(X, X0):
         return dict(**{"class": "input-mutated"}, what="training data modified")
